@@ -326,6 +326,19 @@ func (t *c03Table) lookup(fn, kind, site string) (c03Just, bool) {
 	return c03Just{}, false
 }
 
+// fnNames: the distinct function names the justifications mention.
+func (t *c03Table) fnNames() []string {
+	seen := map[string]bool{}
+	var out []string
+	for _, j := range t.Justified {
+		if !seen[j.Fn] {
+			seen[j.Fn] = true
+			out = append(out, j.Fn)
+		}
+	}
+	return out
+}
+
 // c03Lifter verifies a precondition over a function's parameters at every call
 // site of that function (all of which must be visible: the function is not
 // exported outside the repository and never used as a value).
@@ -336,10 +349,11 @@ type c03Lifter struct {
 	provers map[*ssa.Function]*linProver
 	memo    map[string]bool
 	nSites  int
+	prefix  string // rule id the call-site obligations are recorded under
 }
 
 func newC03Lifter(c *Check) *c03Lifter {
-	l := &c03Lifter{c: c, p: c.P, escaped: map[*ssa.Function]bool{}, provers: map[*ssa.Function]*linProver{}, memo: map[string]bool{}}
+	l := &c03Lifter{c: c, p: c.P, prefix: "C03.R3", escaped: map[*ssa.Function]bool{}, provers: map[*ssa.Function]*linProver{}, memo: map[string]bool{}}
 	for _, fn := range c.P.RepoFns {
 		allInstrs(fn, func(in ssa.Instruction) {
 			for _, op := range in.Operands(nil) {
@@ -401,7 +415,7 @@ func (l *c03Lifter) verify(fn *ssa.Function, pre lin, what string, depth int) (b
 	if node == nil || len(node.In) == 0 {
 		return false, "no call site inside the repository"
 	}
-	const r3 = "C03.R3 a precondition over a function's parameters that the prover needs for a site inside the function holds at every call site of that function (proved there from the caller's dominating guards, or lifted once more)"
+	r3 := l.prefix + " a precondition over a function's parameters that the prover needs for a site inside the function holds at every call site of that function (proved there from the caller's dominating guards, or lifted once more)"
 	n := 0
 	for _, e := range node.In {
 		if e.Site == nil || e.Caller == nil {
@@ -421,15 +435,23 @@ func (l *c03Lifter) verify(fn *ssa.Function, pre lin, what string, depth int) (b
 		okSub := true
 		for a, coef := range pre.c {
 			var prm *ssa.Parameter
+			var fld *types.Var
 			kind := "val"
+			flp := l.prover(fn)
 			switch x := a.(type) {
 			case *ssa.Parameter:
 				prm = x
+			case *ssa.UnOp:
+				prm, fld, _ = flp.paramFieldLoad(x)
 			case *lenMarker:
-				prm, _ = x.x.(*ssa.Parameter)
 				kind = "len"
 				if x.cap {
 					kind = "cap"
+				}
+				if q, ok := x.x.(*ssa.Parameter); ok {
+					prm = q
+				} else {
+					prm, fld, _ = flp.paramFieldLoad(x.x)
 				}
 			}
 			idx := -1
@@ -443,6 +465,15 @@ func (l *c03Lifter) verify(fn *ssa.Function, pre lin, what string, depth int) (b
 				okSub = false
 				break
 			}
+			if fld != nil {
+				// the field's value at the call = a load of arg.f in the caller that dominates the
+				// call with no store / may-write call in between
+				arg = c03FieldAt(clp, e.Site, arg, fld)
+				if arg == nil {
+					okSub = false
+					break
+				}
+			}
 			switch kind {
 			case "len":
 				sub = sub.addScaled(clp.lenOf(arg, cx), coef)
@@ -452,7 +483,7 @@ func (l *c03Lifter) verify(fn *ssa.Function, pre lin, what string, depth int) (b
 				sub = sub.addScaled(clp.lin(arg, cx), coef)
 			}
 		}
-		key := "C03.R3:" + fnName(fn) + "@" + fnName(caller) + ":" + what
+		key := l.prefix + ":" + fnName(fn) + "@" + fnName(caller) + ":" + what
 		pos := l.p.InstrPos(e.Site)
 		if !okSub {
 			return false, "argument not resolvable at " + pos
@@ -492,6 +523,135 @@ func loadC03Table() (*c03Table, error) {
 		t.just[j.Fn+"|"+j.Kind+"|"+j.Site] = j
 	}
 	return t, nil
+}
+
+// justified: a reviewed entry covers the site: directly, or because the site
+// sits in a helper all of whose callers are visible and every one of them is
+// covered by the same entry (an extracted helper inherits the reviewed argument
+// about the code it was cut out of: function-level entries, or the same site
+// shape one level up).
+func (l *c03Lifter) justified(t *c03Table, fn *ssa.Function, kind, site string, depth int) (c03Just, bool) {
+	if j, ok := t.lookup(fnName(fn), kind, site); ok {
+		return j, true
+	}
+	// the function an entry names was renamed (unambiguously, see names.go)
+	if pk := fnPkg(fn); pk != nil && fn.Parent() == nil {
+		for _, old := range t.fnNames() {
+			if old != fnName(fn) && l.p.fnByName(pk.Pkg.Path(), old) == nil && l.p.Fn(pk.Pkg.Path(), old) == fn {
+				if j, ok := t.lookup(old, kind, site); ok {
+					return j, true
+				}
+			}
+		}
+	}
+	if depth >= 2 || !l.liftable(fn) {
+		return c03Just{}, false
+	}
+	node := l.p.VTA().Nodes[fn]
+	if node == nil || len(node.In) == 0 {
+		return c03Just{}, false
+	}
+	var first c03Just
+	for _, e := range node.In {
+		if e.Caller != nil && e.Caller.Func != nil && e.Caller.Func.Synthetic != "" && len(e.Caller.In) == 0 {
+			continue // promoted-method wrapper nobody calls
+		}
+		if e.Caller == nil || e.Caller.Func == nil || !l.p.IsRepoFn(e.Caller.Func) || e.Caller.Func == fn {
+			return c03Just{}, false
+		}
+		j, ok := l.justified(t, e.Caller.Func, kind, site, depth+1)
+		if !ok {
+			return c03Just{}, false
+		}
+		if first.Reason == "" {
+			first = j
+			first.Reason = "helper of " + fnName(e.Caller.Func) + ": " + j.Reason
+		}
+	}
+	return first, true
+}
+
+// boundsProved: every bounds goal of the site holds, from the function's own
+// guards or from a precondition verified at all of its call sites.
+func (l *c03Lifter) boundsProved(in ssa.Instruction) (bool, string) {
+	fn := in.Parent()
+	lp := l.prover(fn)
+	for _, g := range lp.siteGoals(in) {
+		ok, pres := lp.ProveOrLift(in, g.L, g.R)
+		if ok {
+			continue
+		}
+		lifted, why := false, ""
+		for _, pre := range pres {
+			okL, w := l.verify(fn, pre, g.What, 0)
+			if okL {
+				lifted = true
+				break
+			}
+			if why == "" {
+				why = w
+			}
+		}
+		if !lifted {
+			if why != "" {
+				return false, g.What + " (" + why + ")"
+			}
+			return false, g.What
+		}
+	}
+	return true, ""
+}
+
+// c03FieldAt: a value of the caller that equals arg.f at the call site: a load
+// of (or store to) that field dominating the call, with no other store to the
+// field and no call that may write it in between.
+func c03FieldAt(clp *linProver, site ssa.CallInstruction, arg ssa.Value, f *types.Var) ssa.Value {
+	stores := clp.storesToField(f)
+	mw := clp.mayWriteCalls(f)
+	clean := func(from ssa.Instruction) bool {
+		if !dominates(from, site) {
+			return false
+		}
+		for _, st := range stores {
+			if st != from && between(from, st, site) {
+				return false
+			}
+		}
+		for _, c := range mw {
+			if c != ssa.Instruction(site) && c != from && between(from, c, site) {
+				return false
+			}
+		}
+		return true
+	}
+	var found ssa.Value
+	allInstrs(clp.fn, func(in ssa.Instruction) {
+		if found != nil {
+			return
+		}
+		switch x := in.(type) {
+		case *ssa.UnOp:
+			if x.Op != token.MUL {
+				return
+			}
+			fa, ok := x.X.(*ssa.FieldAddr)
+			if !ok || structField(fa.X.Type(), fa.Field) != f || resolve(fa.X) != resolve(arg) {
+				return
+			}
+			if clean(x) {
+				found = x
+			}
+		case *ssa.Store:
+			fa, ok := x.Addr.(*ssa.FieldAddr)
+			if !ok || structField(fa.X.Type(), fa.Field) != f || resolve(fa.X) != resolve(arg) {
+				return
+			}
+			if clean(x) {
+				found = x.Val
+			}
+		}
+	})
+	return found
 }
 
 // c03ParamOf maps contract parameter indexes to the values at a call site.
@@ -545,6 +705,18 @@ func checkC03(c *Check) {
 	}
 	sort.Slice(fns, func(i, j int) bool { return fns[i].String() < fns[j].String() })
 	c.Floor("C03.scope:functions", len(fns), 80)
+	{
+		// make the functions the table names known to the rename table (recording mode only)
+		named := map[string]bool{}
+		for _, n := range table.fnNames() {
+			named[n] = true
+		}
+		for _, fn := range fns {
+			if pk := fnPkg(fn); pk != nil && fn.Parent() == nil && named[fnName(fn)] {
+				_ = p.Fn(pk.Pkg.Path(), fnName(fn))
+			}
+		}
+	}
 
 	const r1 = "C03.R1 every potentially panicking site in peer-reachable repository code is discharged: proven in bounds by the compiler or by hv's linear prover from the guards dominating it, or covered by a reviewed justification"
 	posKey := func(pos token.Pos) string {
@@ -687,7 +859,7 @@ func checkC03(c *Check) {
 				c.OK(okey, r1, pos)
 				continue
 			}
-			if j, ok := table.lookup(fnName(fn), kind, sk); ok {
+			if j, ok := lifter.justified(table, fn, kind, sk, 0); ok {
 				counts["table"]++
 				c.OK(okey, r1+" [justified: "+j.Reason+"]", pos)
 				continue
